@@ -306,6 +306,8 @@ def main(argv=None) -> int:
         traceback.print_exc()
         print(f"CHECKER-ERROR property={pid}")
         return 3
+    if cov.get("violations", 0) and code == 2:
+        code = 1        # a violation was found and reported; other obligations being undecided does not hide it
     wall = time.time() - t0
     level = plan["level"]
     coverage = dict(cov)
